@@ -1160,7 +1160,7 @@ Proof.
 Qed.
 
 Lemma rf_batch_rows_In comps rows0 rw : In rw (batch_rows comps rows0) -> In rw rows0.
-Proof. unfold batch_rows. destruct comps; auto. intros []. Qed.
+Proof. unfold batch_rows, batch_rows_gen. destruct fact_batch_carries_row_count; [auto|]. destruct comps; auto. intros []. Qed.
 
 Lemma rf_extend w comps rows0 w' r evs :
   Inv w -> do_extend w comps rows0 = Some (w', r, evs) ->
